@@ -59,10 +59,19 @@ theorem contribL_specAll (cs : List ANode) (h : ANode.tokensAreLeavesL cs = true
     simp only [ANode.tokensAreLeavesL, Bool.and_eq_true] at h
     rw [contribL, specAllL_cons, flowContribS_specAll c h.1, ih h.2]
 
-/-- The child converters carry what each child prescribes (on trees whose tokens are leaves). -/
-structure RecOK (r : Rec) : Prop where
-  expr : ∀ ctx c, isExpr c = true → ANode.tokensAreLeaves c = true → Post (r.expr ctx c) (fun d => Carries d (specAll c))
-  pattern : ∀ ctx c, isPattern c = true → ANode.tokensAreLeaves c = true → Post (r.pattern ctx c) (fun d => Carries d (specAll c))
+/-- The child converters carry what each child prescribes, for children that satisfy `Q`
+(the induction hypothesis of the knot: `Q` = "is in the covered fragment"). -/
+structure RecOK (r : Rec) (Q : ANode → Prop) : Prop where
+  expr : ∀ ctx c, isExpr c = true → Q c → Post (r.expr ctx c) (fun d => Carries d (specAll c))
+  pattern : ∀ ctx c, isPattern c = true → Q c → Post (r.pattern ctx c) (fun d => Carries d (specAll c))
+  paren : ∀ ctx c, c.kind = .parenthesized → c.attrs.disabled = false → Q c → Post (r.paren ctx c) (fun d => Carries d (specAll c))
+
+/-- What a construct may assume of a child: lexical shape, and — if it is an expression or pattern —
+that it satisfies `Q`. -/
+def ChildOK (Q : ANode → Prop) (c : ANode) : Prop := ANode.tokensAreLeaves c = true ∧ (isPattern c = true → Q c)
+
+theorem isPattern_of_isExpr {c : ANode} (h : isExpr c = true) : isPattern c = true := by
+  unfold isPattern; simp [h]
 
 theorem specAll_space (c : ANode) (h : ANode.tokensAreLeaves c = true) (hk : c.kind = .space) : specAll c = {} := by
   obtain ⟨t, a, hc⟩ := leaf_of_token h (by rw [hk]; rfl)
@@ -96,142 +105,141 @@ theorem specAll_semicolon (c : ANode) (h : ANode.tokensAreLeaves c = true) (hk :
 
 /-! ### producers -/
 
-theorem namedProducer_ok (e : Env) (r : Rec) (hr : RecOK r) :
-    ProducerS (namedProducer e r) specAll (fun c => ANode.tokensAreLeaves c = true) := by
+theorem namedProducer_ok {Q : ANode → Prop} (e : Env) (r : Rec) (hr : RecOK r Q) :
+    ProducerS (namedProducer e r) specAll (ChildOK Q) := by
   intro st c child hok
   unfold namedProducer
   split
   · rename_i hk
     have hk' : child.kind = .colon := by simpa using hk
-    exact Post.bind (synLeaf_carries e child ":" hok (by rw [hk']; rfl)) (fun d hd => Post.pure hd)
+    exact Post.bind (synLeaf_carries e child ":" hok.1 (by rw [hk']; rfl)) (fun d hd => Post.pure hd)
   · split
     · rename_i hx
-      exact Post.bind (hr.expr c child hx hok) (fun d hd => Post.pure hd)
+      exact Post.bind (hr.expr c child hx (hok.2 (isPattern_of_isExpr hx))) (fun d hd => Post.pure hd)
     · split
       · rename_i hx
-        exact Post.bind (hr.pattern c child hx hok) (fun d hd => Post.pure hd)
+        exact Post.bind (hr.pattern c child hx (hok.2 hx)) (fun d hd => Post.pure hd)
       · split
         · rename_i hk
-          exact Post.pure (specAll_space child hok (by simpa using hk))
+          exact Post.pure (specAll_space child hok.1 (by simpa using hk))
         · split
           · rename_i hk
             have hk' : child.kind = .semicolon := by simpa using hk
-            exact Post.pure (specAll_semicolon child hok hk')
+            exact Post.pure (specAll_semicolon child hok.1 hk')
           · exact Post.rejected _
 
-theorem keyedProducer_ok (e : Env) (r : Rec) (hr : RecOK r) :
-    ProducerS (keyedProducer e r) specAll (fun c => ANode.tokensAreLeaves c = true) := by
+theorem keyedProducer_ok {Q : ANode → Prop} (e : Env) (r : Rec) (hr : RecOK r Q) :
+    ProducerS (keyedProducer e r) specAll (ChildOK Q) := by
   intro st c child hok
   unfold keyedProducer
   split
   · rename_i hk
     have hk' : child.kind = .colon := by simpa using hk
-    exact Post.bind (synLeaf_carries e child ":" hok (by rw [hk']; rfl)) (fun d hd => Post.pure hd)
+    exact Post.bind (synLeaf_carries e child ":" hok.1 (by rw [hk']; rfl)) (fun d hd => Post.pure hd)
   · split
     · rename_i hx
-      exact Post.bind (hr.expr c child hx hok) (fun d hd => Post.pure hd)
+      exact Post.bind (hr.expr c child hx (hok.2 (isPattern_of_isExpr hx))) (fun d hd => Post.pure hd)
     · split
       · rename_i hk
-        exact Post.pure (specAll_space child hok (by simpa using hk))
+        exact Post.pure (specAll_space child hok.1 (by simpa using hk))
       · split
         · rename_i hk
-          exact Post.pure (specAll_semicolon child hok (by simpa using hk))
+          exact Post.pure (specAll_semicolon child hok.1 (by simpa using hk))
         · exact Post.rejected _
 
-theorem spreadProducer_ok (e : Env) (r : Rec) (hr : RecOK r) :
-    ProducerS (spreadProducer e r) specAll (fun c => ANode.tokensAreLeaves c = true) := by
+theorem spreadProducer_ok {Q : ANode → Prop} (e : Env) (r : Rec) (hr : RecOK r Q) :
+    ProducerS (spreadProducer e r) specAll (ChildOK Q) := by
   intro st c child hok
   unfold spreadProducer
   split
   · rename_i hk
     have hk' : child.kind = .dots := by simpa using hk
-    exact Post.bind (synLeaf_carries e child ".." hok (by rw [hk']; rfl)) (fun d hd => Post.pure hd)
+    exact Post.bind (synLeaf_carries e child ".." hok.1 (by rw [hk']; rfl)) (fun d hd => Post.pure hd)
   · split
     · rename_i hx
-      exact Post.bind (hr.expr c child hx hok) (fun d hd => Post.pure hd)
+      exact Post.bind (hr.expr c child hx (hok.2 (isPattern_of_isExpr hx))) (fun d hd => Post.pure hd)
     · split
       · rename_i hk
-        exact Post.pure (specAll_space child hok (by simpa using hk))
+        exact Post.pure (specAll_space child hok.1 (by simpa using hk))
       · split
         · rename_i hk
-          exact Post.pure (specAll_semicolon child hok (by simpa using hk))
+          exact Post.pure (specAll_semicolon child hok.1 (by simpa using hk))
         · exact Post.rejected _
 
-theorem unaryProducer_ok (e : Env) (r : Rec) (hr : RecOK r) (isOpKw : Bool) :
-    ProducerS (unaryProducer e r isOpKw) specAll (fun c => ANode.tokensAreLeaves c = true) := by
+theorem unaryProducer_ok {Q : ANode → Prop} (e : Env) (r : Rec) (hr : RecOK r Q) (isOpKw : Bool) :
+    ProducerS (unaryProducer e r isOpKw) specAll (ChildOK Q) := by
   intro st c child hok
   unfold unaryProducer
   split
   · rename_i hk
-    refine Post.pure (tok_carries e child hok ?_)
+    refine Post.pure (tok_carries e child hok.1 ?_)
     simp only [Bool.or_eq_true, beq_iff_eq] at hk
     rcases hk with (hk | hk) | hk <;> rw [hk] <;> rfl
   · split
     · rename_i hx
       split
-      · exact Post.bind (hr.expr c child hx hok) (fun d hd => Post.pure hd)
-      · exact Post.bind (hr.expr c child hx hok) (fun d hd => Post.pure hd)
+      · exact Post.bind (hr.expr c child hx (hok.2 (isPattern_of_isExpr hx))) (fun d hd => Post.pure hd)
+      · exact Post.bind (hr.expr c child hx (hok.2 (isPattern_of_isExpr hx))) (fun d hd => Post.pure hd)
     · split
       · rename_i hk
-        exact Post.pure (specAll_space child hok (by simpa using hk))
+        exact Post.pure (specAll_space child hok.1 (by simpa using hk))
       · exact Post.rejected _
 
-theorem letProducer_ok (e : Env) (r : Rec) (hr : RecOK r) :
-    ProducerS (letProducer e r) specAll (fun c => ANode.tokensAreLeaves c = true) := by
+theorem letProducer_ok {Q : ANode → Prop} (e : Env) (r : Rec) (hr : RecOK r Q) :
+    ProducerS (letProducer e r) specAll (ChildOK Q) := by
   intro st c child hok
   unfold letProducer
   split
   · rename_i hk
     have hk' : child.kind = .eq := by simpa using hk
-    exact Post.bind (synLeaf_carries e child "=" hok (by rw [hk']; rfl)) (fun d hd => Post.pure hd)
+    exact Post.bind (synLeaf_carries e child "=" hok.1 (by rw [hk']; rfl)) (fun d hd => Post.pure hd)
   · split
     · rename_i hx
-      exact Post.bind (hr.pattern c child hx hok) (fun d hd => Post.pure hd)
+      exact Post.bind (hr.pattern c child hx (hok.2 hx)) (fun d hd => Post.pure hd)
     · split
       · rename_i hk
-        exact Post.pure (specAll_space child hok (by simpa using hk))
+        exact Post.pure (specAll_space child hok.1 (by simpa using hk))
       · exact Post.rejected _
 
-theorem exprFlowProducer_ok (r : Rec) (hr : RecOK r) (what : String) :
-    ProducerS (exprFlowProducer r what) specAll (fun c => ANode.tokensAreLeaves c = true) := by
+theorem exprFlowProducer_ok {Q : ANode → Prop} (r : Rec) (hr : RecOK r Q) (what : String) :
+    ProducerS (exprFlowProducer r what) specAll (ChildOK Q) := by
   intro st c child hok
   unfold exprFlowProducer
   split
   · rename_i hx
-    exact Post.bind (hr.expr c child hx hok) (fun d hd => Post.pure hd)
+    exact Post.bind (hr.expr c child hx (hok.2 (isPattern_of_isExpr hx))) (fun d hd => Post.pure hd)
   · split
     · rename_i hk
-      exact Post.pure (specAll_space child hok (by simpa using hk))
+      exact Post.pure (specAll_space child hok.1 (by simpa using hk))
     · exact Post.rejected _
 
-theorem showProducer_ok (e : Env) (r : Rec) (hr : RecOK r) :
-    ProducerS (showProducer e r) specAll (fun c => ANode.tokensAreLeaves c = true) := by
+theorem showProducer_ok {Q : ANode → Prop} (e : Env) (r : Rec) (hr : RecOK r Q) :
+    ProducerS (showProducer e r) specAll (ChildOK Q) := by
   intro st c child hok
   unfold showProducer
   split
   · rename_i hk
     have hk' : child.kind = .colon := by simpa using hk
-    exact Post.bind (synLeaf_carries e child ":" hok (by rw [hk']; rfl)) (fun d hd => Post.pure hd)
+    exact Post.bind (synLeaf_carries e child ":" hok.1 (by rw [hk']; rfl)) (fun d hd => Post.pure hd)
   · split
     · rename_i hx
-      exact Post.bind (hr.expr c child hx hok) (fun d hd => Post.pure hd)
+      exact Post.bind (hr.expr c child hx (hok.2 (isPattern_of_isExpr hx))) (fun d hd => Post.pure hd)
     · split
       · rename_i hk
-        exact Post.pure (specAll_space child hok (by simpa using hk))
+        exact Post.pure (specAll_space child hok.1 (by simpa using hk))
       · exact Post.rejected _
 
 /-! ### constructs -/
 
 /-- A flow construct over the children of `n` carries what `n` prescribes. -/
-theorem flow_construct_carries {σ : Type} (e : Env) (ctx : Ctx) (k : Kind) (cs : List ANode) (a : Attrs) (st : σ)
+theorem flow_construct_carries {σ : Type} {Q : ANode → Prop} (e : Env) (ctx : Ctx) (k : Kind) (cs : List ANode) (a : Attrs) (st : σ)
     (producer : σ → Ctx → ANode → M (σ × Option FlowItem))
-    (hp : ProducerS producer specAll (fun c => ANode.tokensAreLeaves c = true))
+    (hp : ProducerS producer specAll (ChildOK Q))
     (hv : isVerbatimNode k cs a = false) (hraw : k ≠ .raw)
-    (hw : ANode.tokensAreLeaves (.inner k cs a) = true) :
+    (hw : ANode.tokensAreLeavesL cs = true) (hq : ∀ c ∈ cs, isPattern c = true → Q c) :
     Post (flowM e ctx cs st producer) (fun d => Carries d (specAll (.inner k cs a))) := by
-  have hcs : ANode.tokensAreLeavesL cs = true := by
-    simp only [ANode.tokensAreLeaves, Bool.and_eq_true] at hw; exact hw.2
-  rw [specAll_inner k cs a hv hraw, ← contribL_specAll cs hcs]
-  exact flowM_carries (commentOK e) hp (fun c hok hk => specAll_space c hok hk) cs (fun c hc => tokensAreLeavesL_mem hcs hc) st
+  rw [specAll_inner k cs a hv hraw, ← contribL_specAll cs hw]
+  exact flowM_carries (commentOK e) hp (fun c hok hk => specAll_space c hok.1 hk) cs
+    (fun c hc => ⟨tokensAreLeavesL_mem hw hc, hq c hc⟩) st
 
 end Typstyle
